@@ -584,21 +584,23 @@ class Ace(AceBase):
 
     def _shadow_of__srcport(self, other: Ace) -> bool:
         """Return True if self.srcport is in the shadow of the  other.srcport."""
-        if top := set(other.srcport.ports):
-            if bottom := set(self._srcport.ports):
-                diff = bottom.intersection(top)
-                return diff == bottom
-            return False
-        return True
+        if not other.srcport.operator:
+            return True  # other matches any port
+        top = set(other.srcport.ports)  # can be empty, "lt 1" matches no port
+        if bottom := set(self._srcport.ports):
+            diff = bottom.intersection(top)
+            return diff == bottom
+        return False
 
     def _shadow_of__dstport(self, other: Ace) -> bool:
         """Return True if self.dstport is in the shadow of the  other.dstport."""
-        if top := set(other.dstport.ports):
-            if bottom := set(self._dstport.ports):
-                diff = bottom.intersection(top)
-                return diff == bottom
-            return False
-        return True
+        if not other.dstport.operator:
+            return True  # other matches any port
+        top = set(other.dstport.ports)  # can be empty, "lt 1" matches no port
+        if bottom := set(self._dstport.ports):
+            diff = bottom.intersection(top)
+            return diff == bottom
+        return False
 
     def _shadow_of__option(self, other: Ace) -> bool:
         """Return True if self.dstport is in the shadow of the  other.dstport."""
